@@ -5,6 +5,7 @@ from . import common
 from . import modelgen as MG
 from . import c01 as C01
 from .common import cfloat, cnat, cstr, clist, cpair
+from . import c08_hist as H          # write/read histories on one store object (own generator / oracle / printer)
 
 MANIFEST = {
     "text": "Coq 8.16 theorems over a model of the three persistence codecs (dict/JSON with loaded_ids re-linking and fresh ids, "
@@ -39,6 +40,7 @@ MANIFEST = {
                  "induction over nested trees) + vm_compute correspondence",
 }
 
+MANIFEST["text"] += H.MANIFEST_TEXT
 unhex = MG.unhex
 FAMS = {"uniform": "FUniform", "loguniform": "FLogUniform", "gaussian": "FGaussian", "loggaussian": "FLogGaussian"}
 FORMS = {"dict": "FDict", "pickle": "FPickle", "db": "FDb"}
@@ -1085,6 +1087,7 @@ def run(ctx):
                 "derived parameters; fixed corpus cases first. "
                 "Non-trivial: >= 2 priors and one of {shared prior, nesting, tuple, arithmetic, constant, copy, passing, assertion, "
                 "zero-prior component}. Distinct = distinct (program, decorations, trip sequence). Every trip is one evaluation.")
+    ctx.rule += H.RULE
     ctx.trusted = [
         "Coq 8.16.1 kernel incl. vm_compute; primitive floats",
         "harness abstraction of live objects (impl/c08_impl.py raw __dict__ walk; message id read as `prior.id_`), compared with the tree the program denotes",
@@ -1114,6 +1117,7 @@ def run(ctx):
         cases.append(gen_array_case(ctx.rng))
     for _ in range(16 if ctx.tier == "quick" else 100):
         cases.append(gen_removal_case(ctx.rng))
+    cases += H.gen_cases(ctx)
     if ctx.replay:
         rp = json.load(open(ctx.replay))
         if rp.get("case"):
@@ -1156,6 +1160,9 @@ def run(ctx):
                 "finding-reload-item-number-after-removal-db.json": "reload-item-number-after-removal"}
     for i, (c, r) in enumerate(zip(cases, results)):
         before = len(ctx.violations) + sum(h["count"] for h in ctx.known_hits.values())
+        if c.get("kind") == "history":
+            H.oracle(ctx, c, r, cfg, coq_cases, coq_idx, i)
+            continue
         try:
             if c.get("kind") == "removal":
                 run_removal_oracle(ctx, c, r)
